@@ -1,6 +1,9 @@
 #!/bin/bash
 # (re)generate the Coq makefile from the .v files present and build given targets (default: all)
+# Serialised by a lock so that concurrent checks never build the same .vo twice at once.
 cd "$(dirname "$0")"
+exec 9>.mk.lock
+flock 9
 { echo "-Q . AP"; echo "-arg -w -arg -notation-overridden,-deprecated-hint-without-locality,-deprecated-instance-without-locality,-deprecated-syntactic-definition"; find Base Gen Model Proofs Props Corr -name '*.v' | sort; } > _CoqProject
 coq_makefile -f _CoqProject -o Makefile.coq >/dev/null 2>&1
-exec timeout ${COQ_TIMEOUT:-1500} make -f Makefile.coq -j${COQ_JOBS:-16} "$@"
+timeout ${COQ_TIMEOUT:-1500} make -f Makefile.coq -j${COQ_JOBS:-16} "$@"
